@@ -359,3 +359,101 @@ Proof.
         -- intro z. rewrite <- U1. tauto.
         -- intros _. exact U2.
 Qed.
+
+(* ---- canonical form: sorted, consecutive elements separated by a gap ---- *)
+Definition ele (a b : edge) : Prop := ~ elt b a.
+Definition gap (a b : ipair) : Prop := exists x y, snd a = EV x /\ fst b = EV y /\ x + 1 < y.
+Inductive chain_gap : list ipair -> Prop :=
+  | cg_nil : chain_gap []
+  | cg_one : forall p, chain_gap [p]
+  | cg_cons : forall a b l, gap a b -> chain_gap (b :: l) -> chain_gap (a :: b :: l).
+Definition lsorted (l : list ipair) : Prop := StronglySorted (fun a b => ele (fst a) (fst b)) l.
+
+Lemma ele_trans : forall a b c, ele a b -> ele b c -> ele a c.
+Proof. unfold ele. intros [| |x] [| |y] [| |z]; simpl; lia. Qed.
+Lemma ele_antisym : forall a b, ele a b -> ele b a -> a = b.
+Proof. unfold ele. intros [| |x] [| |y]; simpl; intros; try reflexivity; try lia. f_equal; lia. Qed.
+Lemma elt_ele : forall a b, elt a b -> ele a b.
+Proof. unfold ele. intros [| |x] [| |y]; simpl; lia. Qed.
+
+Lemma rc_le : forall x y, range_compare x y <= 0 -> ele (fst x) (fst y).
+Proof.
+  intros x y H. unfold range_compare in H.
+  destruct (edge_compare (fst x) (fst y) =? 0) eqn:E.
+  - unfold ele. rewrite <- ec_gt. lia.
+  - apply elt_ele. apply ec_lt. lia.
+Qed.
+Lemma rc_gt : forall x y, ~ range_compare x y <= 0 -> ele (fst y) (fst x).
+Proof.
+  intros x y H. unfold range_compare in H.
+  destruct (edge_compare (fst x) (fst y) =? 0) eqn:E.
+  - unfold ele. rewrite <- ec_lt. lia.
+  - apply elt_ele. apply ec_gt. lia.
+Qed.
+
+Lemma insert_lsorted : forall x l, lsorted l -> lsorted (insert_by range_compare x l).
+Proof.
+  induction l as [|a l IH]; intros S; simpl.
+  - constructor; constructor.
+  - inversion S as [|? ? Sl Fa]; subst.
+    destruct (range_compare x a <=? 0) eqn:E.
+    + apply Z.leb_le in E. apply rc_le in E. constructor; [exact S |]. constructor; [exact E |].
+      eapply Forall_impl; [|exact Fa]. intros b Hb. eapply ele_trans; eauto.
+    + apply Z.leb_gt in E. assert (E' : ~ range_compare x a <= 0) by lia. apply rc_gt in E'.
+      constructor; [apply IH; exact Sl |]. apply Forall_forall. intros b Hb. apply insert_by_in in Hb.
+      destruct Hb as [->|Hb]; auto. rewrite Forall_forall in Fa. auto.
+Qed.
+Lemma sort_lsorted : forall l, lsorted (sort_by range_compare l).
+Proof. induction l; simpl; [constructor | apply insert_lsorted; auto]. Qed.
+
+Lemma gap_of_nonjoin : forall ra rb, wfp ra -> wfp rb -> ele (fst ra) (fst rb) ->
+  joinable ra rb = false -> exists x y, snd ra = EV x /\ fst rb = EV y /\ x + 1 < y.
+Proof.
+  intros [al ar] [bl br] Wa Wb S J. apply wfp_iff in Wa. apply wfp_iff in Wb. simpl in *.
+  destruct Wa as [Wa1 [Wa2 Wa3]]. destruct Wb as [Wb1 [Wb2 Wb3]]. unfold ele in S.
+  unfold joinable in J. apply orb_false_iff in J. destruct J as [O A].
+  assert (O' : ~ (~ elt br al /\ ~ elt ar bl)).
+  { intro K. apply (overlap_true (al, ar) (bl, br)) in K. congruence. }
+  cbn [fst snd] in A.
+  left_edge al Wa1; right_edge ar Wa2; left_edge bl Wb1; right_edge br Wb2; simpl in *; try lia;
+    try (eexists; eexists; split; [reflexivity | split; [reflexivity | lia]]).
+Qed.
+
+Lemma join_fst : forall ra rb, ele (fst ra) (fst rb) -> fst (join ra rb) = fst ra.
+Proof.
+  intros [al ar] [bl br] S. unfold join. cbn [fst snd] in *.
+  destruct (overlap (al, ar) (bl, br)); [|reflexivity]. cbn [fst].
+  destruct (edge_compare al bl <? 0) eqn:E; [reflexivity|].
+  apply ec_ltb_f in E. symmetry. apply ele_antisym; auto.
+Qed.
+
+Lemma union_loop_gap : forall rest ra, wfp ra -> Forall wfp rest -> lsorted (ra :: rest) ->
+  chain_gap (union_loop ra rest) /\ exists h t, union_loop ra rest = h :: t /\ fst h = fst ra.
+Proof.
+  induction rest as [|rb tl IH]; intros ra Wa Wr S; simpl.
+  - split; [constructor | exists ra, []; auto].
+  - inversion Wr as [|? ? Wb Wtl]; subst.
+    inversion S as [|? ? S1 F1]; subst. inversion S1 as [|? ? S2 F2]; subst.
+    inversion F1 as [|? ? Eab F1']; subst.
+    destruct (joinable ra rb) eqn:J.
+    + destruct (join_den _ _ Wa Wb J) as [_ Wj].
+      pose proof (join_fst ra rb Eab) as Fj.
+      assert (Sj : lsorted (join ra rb :: tl)).
+      { constructor; auto. rewrite Fj. exact F1'. }
+      destruct (IH _ Wj Wtl Sj) as [C [h [t [Eh Fh]]]].
+      split; auto. exists h, t. split; auto. congruence.
+    + destruct (IH _ Wb Wtl S1) as [C [h [t [Eh Fh]]]].
+      split; [|exists ra, (union_loop rb tl); auto].
+      rewrite Eh in *. constructor; auto.
+      destruct (gap_of_nonjoin _ _ Wa Wb Eab J) as [x [y [G1 [G2 G3]]]].
+      exists x, y. rewrite Fh. auto.
+Qed.
+
+Theorem canonical_sorted_disjoint : forall els, Forall wfp els -> chain_gap (range_union els).
+Proof.
+  intros els W. unfold range_union.
+  pose proof (Forall_sort _ range_compare _ W) as WS.
+  pose proof (sort_lsorted els) as S.
+  destruct (sort_by range_compare els) as [|a tl]; [constructor|].
+  inversion WS; subst. apply union_loop_gap; auto.
+Qed.
